@@ -8,7 +8,7 @@ from harness.props import C01
 
 ID = 'C03'
 LEAN_TARGETS = ['Props.C03']
-TIE_A = ['kernel_dense_eq', 'kernel_sparse_eq', 'kernel_dispatch_eq', 'kernel_leftmat_eq', 'kernel_rightmat_eq']
+TIE_A = ['kernel_dense_eq', 'kernel_sparse_eq', 'kernel_dispatch_eq', 'kernel_leftmat_eq', 'kernel_rightmat_eq', 'meth_operators_eq']
 OBLIGATIONS = [
     'C03.dense_kernel_is_contraction', 'C03.sparse_kernel_is_contraction', 'C03.kernel_output_size', 'C03.contraction_entry_order',
     'C03.grade_filtered_kernel', 'C03.get_mult_function_spec', 'C03.scalar_operand_gp', 'C03.scalar_operand_op',
